@@ -118,5 +118,10 @@ func (server *Server) SRem(conn *redis.Conn, key string, members []string) (*red
 	if err != nil {
 		return nil, err
 	}
-	return redis.NewIntegerMessage(set.Rem(members)), nil
+	removedCount := set.Rem(members)
+	if len(set.Members()) == 0 {
+		// A set that becomes empty is removed like Redis.
+		db.RemoveRecord(key)
+	}
+	return redis.NewIntegerMessage(removedCount), nil
 }
